@@ -19,6 +19,9 @@ class VariableBoundMinPropagator(VariableBoundPropagator):
         min_v = self.min()
         
         range_l = self.target.domain.range_l
+        if len(range_l) == 0:
+            # Nothing left to trim
+            return False
         
 #        print("Min: range_l=" + str(range_l) + " min_v=" + str(min_v))
 
